@@ -134,6 +134,9 @@ def run(ctx, rep):
         arg = canon(pb.pexpr_operand(sv[0].args[1]), 0, 2)
         rep.ob('R12.c', S + '::persist_messages', 'the materialised batch is what is written', 'materialize_batch_and_update_state' in arg, sv[0].where(), 'save_batches(%s)' % arg[:90])
     check_comparisons(ctx, rep, 'R12.c', {k: v for k, v in rf.CMP_PARTITION.items() if k.endswith(('filter_segments_by_offsets', 'try_get_messages_from_cache', 'load_messages_from_cache', 'get_end_offset'))})
+    # the split of a poll between the persisted part of the open segment and its unsaved buffer: an acknowledged message that is still
+    # only in the buffer must be found there (wrong bound = acknowledged messages silently missing from a poll)
+    check_comparisons(ctx, rep, 'R12.c', {k: v for k, v in rf.CMP_SEGMENT.items() if k.endswith(('Segment::get_messages_by_offset', 'BatchAccumulator::get_messages_by_offset', 'Segment::load_messages_from_disk'))})
     ops = field_method_ops(ctx, 'server::streaming::cache::buffer::SmartCache', 'buffer')
     for fn, want in CACHE_OPS.items():
         got = ops.get(fn)
